@@ -61,7 +61,7 @@ def _c02_runs(tier):
     rs.append(Run(C(sse2=0, **MIN), "harness/p_c02.c", ["--mode=lift", "--setbits=25"] + ([] if tier == "thorough" else ["--lift-b=65"]), group="host-lift"))
     rs.append(Run(C(sse2=0, **MIN), "harness/p_c02.c", ["--mode=struct"], group="host-struct"))
     rs.append(Run(C(**MIN), "harness/p_c02.c", ["--mode=big"], group="min-big"))
-    rs.append(_omp_run("C02", 0x410, tier))
+    rs.append(_omp_run("C02", 0x410, tier))  # incl. PLUQ-based elimination of wide operands
     rs.append(Run(C(**MIN), "harness/p_c02.c", ["--mode=rec"], group="min-rec"))
     return rs
 
@@ -117,11 +117,12 @@ def _c07_runs(tier):
             Run(C(sse2=0, **MIN), "harness/p_c07.c", ["--mode=lift"] + ([] if tier == "thorough" else ["--lift-b=65"]), group="lift"),
             Run(C(), "harness/p_c07.c", ["--mode=struct"], group="struct"),
             Run(C(sse2=0, **MIN), "harness/p_c07.c", ["--mode=struct"], group="struct"),
-            Run(C(**MIN), "harness/p_c07.c", ["--mode=rec"], group="rec")]
+            Run(C(**MIN), "harness/p_c07.c", ["--mode=rec"], group="rec"),
+            _omp_run("C07", 0x2000, tier)]
 
 PROPS["C07"] = dict(
     level="exploration", runs=_c07_runs,
-    rule="mzd_kernel_left_pluq x cutoffs x inputs: TINY(16/20) = ALL matrices with that many entries, LIFT = all lifted rank profiles (<= 9/12 core entries), ECH (all subsets of 10 boundary pivot columns), RK, BND, and in the min-cache build REC = shapes above the PLE cutoff with every (r1,r2,placement) class incl. pivot gaps in the right half; non-trivial = 0 < rank < ncols (a non-trivial kernel exists); distinct = distinct (input digest, cutoff)",
+    rule="(OpenMP build: mzd_kernel_left_pluq on wide rank-deficient inputs (150 x 700, 300 x 900) under the ICB scheduler with the mini-GOMP runtime, teams 2 / 4: NULL iff trivial, dimensions, A*K = 0, independent columns on every explored schedule, happens-before race detection) + mzd_kernel_left_pluq x cutoffs x inputs: TINY(16/20) = ALL matrices with that many entries, LIFT = all lifted rank profiles (<= 9/12 core entries), ECH (all subsets of 10 boundary pivot columns), RK, BND, and in the min-cache build REC = shapes above the PLE cutoff with every (r1,r2,placement) class incl. pivot gaps in the right half; non-trivial = 0 < rank < ncols (a non-trivial kernel exists); distinct = distinct (input digest, cutoff)",
     level_text="Bounded-exhaustive differential exploration of the kernel routine over complete small-matrix domains and structured rank-profile families, including the block-recursive PLE route; NULL iff full column rank, dimensions, A*K = 0 for the original A and rank(K) = n - r are decided by the reference model.",
     level_note="Bounded as C02/C03.",
     technique="bounded-exhaustive enumeration (all small matrices, lifted and block rank profiles) on the real code against a reference null-space test",
